@@ -34,7 +34,7 @@ META = dict(
     level_text='every placement of a concurrent shutdown() at the environment call-outs of the control connection\'s connect sequence, and every order of session shutdown / node-up event / cluster shutdown within the bounds, is explored (solver-forked flags) through the real methods; per path the obligation is that every connection opened is closed, that nothing new is opened or scheduled after shutdown, and that shutdown is idempotent and ordered',
     level_note='stand-in Cluster/Session objects expose exactly what the real methods read; pre-emption at environment call-outs (blocking factory, connection requests, metadata refresh) and, in job control-race, a Cluster.shutdown() by another thread at any acquire/release of the two locks of the control connection (with every host of the plan refusing as one of the cases, so that the retry-scheduling branch is reached); not inside lock-free regions of driver code; pools themselves are C12',
     technique='symbolic execution (sx, solver-forked scheduler flags) of the real cassandra.cluster.ControlConnection._reconnect/_try_connect/_set_new_connection/shutdown, Session.shutdown/submit/add_or_renew_pool and Cluster.shutdown over scripted connections and recorders',
-    bounds=dict(quick='control connection: 1..2 hosts in the plan (first may fail to connect), shutdown possible at each of 5 call-outs of the connect sequence or not at all, control-connection or cluster shutdown; session: shutdown before/after a node-up event, 2 hosts, shutdown at a sync point of the pool-creation task, two overlapping pool-creation tasks for one host; cluster: 0..2 sessions, shutdown twice',
+    bounds=dict(quick='control connection: 1..2 hosts in the plan (first may fail to connect), shutdown possible at each of 5 call-outs of the connect sequence or not at all, control-connection or cluster shutdown; session: shutdown before/after a node-up event, 2 hosts, shutdown at a sync point of the pool-creation task, two overlapping pool-creation tasks for one host; cluster: 0..2 sessions, shutdown twice; connect() on a set-up cluster with shutdown() at a sync point of connect or afterwards',
                 thorough='same, plus control-race2: two Cluster.shutdown() calls by other threads at sync points (concurrent shutdowns)'),
     assumptions=['another thread calls shutdown() only while the connecting thread is inside an environment call (factory, request round trip, metadata refresh)'],
     stubs=['connection_factory: scripted control connections (register_watchers / wait_for_responses / close recorded)', 'Cluster and Session stand-ins; executor runs submitted tasks inline or records them'],
@@ -45,7 +45,7 @@ META = dict(
 def encoded_functions():
     C = cc.ControlConnection
     return [C._reconnect, C._reconnect_internal, C._try_connect, C._set_new_connection, C.shutdown, C.reconnect, C._submit,
-            cc.Session.shutdown, cc.Session.submit, cc.Session.add_or_renew_pool, cc.Session.update_created_pools, cc.Cluster.shutdown]
+            cc.Session.shutdown, cc.Session.submit, cc.Session.add_or_renew_pool, cc.Session.update_created_pools, cc.Cluster.shutdown, cc.Cluster.connect, cc.Cluster._new_session]
 
 
 # ---- (a) control connection ------------------------------------------------------------------------
@@ -332,9 +332,60 @@ def h_cluster(V):
         V.check(True, 'cluster:connect-refused-after-shutdown')
 
 
+class _Sess2(object):
+    made = []
+
+    def __init__(self, cluster, hosts, keyspace=None):
+        self.cluster, self.is_shutdown = cluster, False
+        _Sess2.made.append(self)
+
+    def shutdown(self):
+        self.is_shutdown = True
+
+
+def h_connect_race(V):
+    """Cluster.connect() on a cluster that is already set up, while another thread calls Cluster.shutdown() at an
+    acquire/release of the cluster lock inside connect(): whatever session connect() creates must end up shut down"""
+    log = []
+    cl = cc.Cluster.__new__(cc.Cluster)
+    cl.is_shutdown = False
+    cl._is_setup = True
+    cl._idle_heartbeat = None
+    cl._user_types = {}
+    cl.metadata = types.SimpleNamespace(all_hosts=lambda: [], dbaas=False)
+    cl.scheduler = types.SimpleNamespace(shutdown=lambda: log.append('scheduler'))
+    cl.control_connection = types.SimpleNamespace(shutdown=lambda: log.append('control'))
+    cl.sessions = set()
+    cl.executor = types.SimpleNamespace(shutdown=lambda: log.append('executor'))
+    _Sess2.made = []
+    when = V.pick('shutdown', ['at-a-sync-point-of-connect', 'afterwards'])
+    pre = kit.Preempter(V, ('connect',), lambda *a: cl.shutdown(), enabled=lambda: when == 'at-a-sync-point-of-connect' and not cl.is_shutdown)
+    cl._lock = kit.SchedLock('cluster._lock', pre)
+    orig = cc.Session
+    cc.Session = _Sess2
+    try:
+        try:
+            session = cl.connect()
+            outcome = 'session'
+        except DriverException:
+            session = None
+            outcome = 'refused'
+    finally:
+        cc.Session = orig
+    if not cl.is_shutdown:
+        V.check(outcome == 'session' and not session.is_shutdown, 'cluster:connect-returns-a-live-session-when-running')
+        cl.shutdown()
+    V.tag('outcome', outcome)
+    V.tag('preempted', '/'.join('%s:%s' % (x[1], x[2]) for x in pre.log))
+    for i, sess in enumerate(_Sess2.made):
+        V.check(sess.is_shutdown, 'cluster:every-session-shut-down', note='the session created by a connect() that overlapped shutdown() (%s) is left running' % outcome)
+    if outcome == 'session' and pre.log:
+        V.check(session.is_shutdown, 'cluster:session-returned-after-shutdown-is-shut-down')
+
+
 def jobs(tier):
     if tier == 'thorough':
         # two pre-emptions: a second thread calls Cluster.shutdown() as well (concurrent shutdowns)
         return [Job('control', 'h_control', {}), Job('control-race', 'h_control', dict(race=True)), Job('control-race2', 'h_control', dict(race=True, budget=2)),
-                Job('session', 'h_session', {}), Job('cluster', 'h_cluster', {})]
-    return [Job('control', 'h_control', {}), Job('control-race', 'h_control', dict(race=True)), Job('session', 'h_session', {}), Job('cluster', 'h_cluster', {})]
+                Job('session', 'h_session', {}), Job('cluster', 'h_cluster', {}), Job('connect-race', 'h_connect_race', {})]
+    return [Job('control', 'h_control', {}), Job('control-race', 'h_control', dict(race=True)), Job('session', 'h_session', {}), Job('cluster', 'h_cluster', {}), Job('connect-race', 'h_connect_race', {})]
